@@ -120,7 +120,7 @@ func (u *universe) txFacts() map[string]any {
 			dlg = s.dlg.name
 		}
 		cost := units(mulGas(s.tx.Gas(), u.e.effPrice(s.tx)))
-		out[t.name] = map[string]any{"id": s.id, "org": s.org.name, "dlg": dlg, "cost": cost, "costs": []any{}, "cap": digits(feeCap(s.tx, u.e.baseGP)), "prio": digits(u.e.expectedPrio(s.tx, true)), "prio0": digits(u.e.expectedPrio(s.tx, false)),
+		out[t.name] = map[string]any{"id": s.id, "org": s.org.name, "dlg": dlg, "cost": cost, "costs": []any{}, "prios": []any{}, "priosnw": []any{}, "cap": digits(feeCap(s.tx, u.e.baseGP)), "prio": digits(u.e.expectedPrio(s.tx, true)), "prio0": digits(u.e.expectedPrio(s.tx, false)),
 			"ref": s.tx.BlockRef().Number(), "exp": s.tx.Expiration(), "dep": s.dep, "typed": false}
 	}
 	return out
@@ -161,6 +161,7 @@ type replayRun struct {
 	Stale      int         `json:"stalePromotes"`
 	MidWash    int         `json:"midWashOps"`
 	Key        string      `json:"key"`
+	Discarded  string      `json:"discarded,omitempty"`
 }
 
 type mismatch struct {
@@ -215,12 +216,12 @@ func (c *washCtl) start(pool *txpool.TxPool) string {
 	c.resume, c.parked = make(chan struct{}), make(chan string)
 	c.alive, c.running = true, true
 	c.evs = nil
-	go func() {
+	go guard("replayed wash", func() {
 		pool.VerifWash()
 		c.running = false
 		c.parked <- "done"
-	}()
-	c.at = <-c.parked
+	})
+	c.at = await(c.parked, "replayed wash start")
 	if c.at == "done" {
 		c.alive = false
 	}
@@ -230,7 +231,7 @@ func (c *washCtl) start(pool *txpool.TxPool) string {
 func (c *washCtl) step() string {
 	c.evs = nil
 	c.resume <- struct{}{}
-	c.at = <-c.parked
+	c.at = await(c.parked, "replayed wash after "+c.at)
 	if c.at == "done" {
 		c.alive = false
 	}
@@ -243,7 +244,7 @@ func (c *washCtl) finish() {
 	}
 	c.free = true
 	c.resume <- struct{}{}
-	for c.at = <-c.parked; c.at != "done"; c.at = <-c.parked {
+	for c.at = await(c.parked, "replayed wash finishing"); c.at != "done"; c.at = await(c.parked, "replayed wash finishing") {
 		c.resume <- struct{}{}
 	}
 	c.alive = false
@@ -283,6 +284,10 @@ func replayFile(path, expect string) replayResult {
 		}
 		run, evs := replayOne(u, i, beh, expect, bf)
 		u.e.close()
+		if run.Discarded != "" {
+			run.Mismatch, run.Violations = nil, nil
+			evs = nil
+		}
 		res.Runs = append(res.Runs, run)
 		res.Steps += run.Done
 		if run.Mismatch != nil || len(run.Violations) > 0 {
@@ -348,6 +353,7 @@ func replayOne(u *universe, index int, beh []map[string]any, expect string, bf b
 	e := u.e
 	run := replayRun{Index: index, Steps: len(beh)}
 	r := &recorder{e: e, rng: rand.New(rand.NewSource(1))}
+	r.st.Counts = map[string]int{}
 	r.tr = newTracer(e)
 	ctl := &washCtl{}
 	r.tr.gate = ctl.gate
@@ -580,7 +586,9 @@ done:
 	}
 	// a key describing the behaviour's shape (for counting distinct non-trivial behaviours)
 	run.Key = fmt.Sprint(run.Actions)
-	e.checkTiming()
+	if !e.timingOK() {
+		run.Discarded = "slow: the sync status of a head changed during the run"
+	}
 	return run, e.evs.sorted()
 }
 
